@@ -96,8 +96,9 @@ type World struct {
 	signalled        bool // the runner context was cancelled (the binary received SIGINT/SIGTERM): the persist loop stops
 	failRemove       int // k > 0: the k-th log removal of the save being released fails
 
-	stubsMu sync.Mutex
-	stubs   map[string][]*stub
+	stubsMu   sync.Mutex
+	stubs     map[string][]*stub
+	realCount map[string]int
 }
 
 //go:norace
@@ -140,6 +141,22 @@ type prunnerTaskView struct {
 }
 
 var _ taskctl.Runner = &stub{}
+
+// jobRunner is what the hook handlers need to know about the task runner of a job, be it the
+// stub or the wrapper around the real taskctl.TaskRunner (engine C).
+type jobRunner interface {
+	taskctl.Runner
+	jobName() string
+	theWorld() *World
+	pass() *map[string]int32 // stage statuses at the start of the current scheduler pass
+	markBegun() bool         // true the first time
+	ev(kind, taskName, arg string)
+}
+
+func (s *stub) jobName() string          { return s.job }
+func (s *stub) theWorld() *World         { return s.world }
+func (s *stub) pass() *map[string]int32  { return &s.passSnap }
+func (s *stub) markBegun() bool          { b := !s.begun; s.begun = true; return b }
 
 func (s *stub) SetOnTaskChange(f func(t *task.Task)) { s.onChange = f }
 
@@ -372,13 +389,13 @@ func nameOf(point string, ctx []interface{}) (name string, owner interface{}, at
 		name = point + ":" + jobNameFromVars(st.Variables) + "/" + st.Name
 	case "sched.loop":
 		attr = lkW // the launch pass goes through HandleStageChange without parking (DESIGN §2.3)
-		if s, ok := ctx[0].(*stub); ok {
-			name = point + ":" + s.job
+		if s, ok := ctx[0].(jobRunner); ok {
+			name = point + ":" + s.jobName()
 		}
 	case "stage.go":
 		st := ctx[1].(*scheduler.Stage)
-		if s, ok := ctx[0].(*stub); ok {
-			name = point + ":" + s.job + "/" + st.Name
+		if s, ok := ctx[0].(jobRunner); ok {
+			name = point + ":" + s.jobName() + "/" + st.Name
 		}
 	case "store.load.opened":
 	case "store.save.created", "store.save.encoded", "store.save.closed", "store.save.renamed":
@@ -398,7 +415,7 @@ func (run *Run) newWorld(initial *store.PersistedData, defs DefSet, defsIx int) 
 func jwtTokenAuth() *jwtauth.JWTAuth { return jwtauth.New("HS256", []byte(jwtSecret), nil) }
 
 func (run *Run) newWorldIn(dir string, initial *store.PersistedData, defs DefSet, defsIx int) (*World, error) {
-	w := &World{id: len(run.worlds) + 1, run: run, defs: cloneDefSet(defs), defsIx: defsIx, stubs: map[string][]*stub{}, dir: dir}
+	w := &World{id: len(run.worlds) + 1, run: run, defs: cloneDefSet(defs), defsIx: defsIx, stubs: map[string][]*stub{}, realCount: map[string]int{}, dir: dir}
 	w.ctx, w.cancel = context.WithCancel(context.Background())
 	cfg := run.sc.Cfg
 	switch cfg.Store {
@@ -442,6 +459,9 @@ func (run *Run) newWorldIn(dir string, initial *store.PersistedData, defs DefSet
 		st = w.store
 	}
 	r, err := prunner.NewPipelineRunner(w.ctx, defs.toDefs(), func(j *prunner.PipelineJob) taskctl.Runner {
+		if cfg.RealRunner {
+			return w.newReal(j)
+		}
 		return w.newStub(j)
 	}, st, w.out)
 	if err != nil {
